@@ -12,6 +12,8 @@ pub mod c09;
 pub mod c10;
 pub mod c11;
 pub mod c12;
+pub mod c13;
+pub mod c20;
 pub mod pairs;
 pub mod util;
 
@@ -31,6 +33,8 @@ pub fn run(ctx: &Ctx) -> PropResult {
         "C10" => c10::run(ctx),
         "C11" => c11::run(ctx),
         "C12" => c12::run(ctx),
+        "C13" => c13::run(ctx),
+        "C20" => c20::run(ctx),
         other => Err(format!("no monitor for {}", other)),
     }
 }
